@@ -56,7 +56,7 @@ class Contract:
 
 class LoopSpec:
     def __init__(self, qual, loop, inv=(), modifies=(), decreases=None, labels=None,
-                 ghost_init=(), ghost_pre=(), post=(), locals_types=None):
+                 ghost_init=(), ghost_pre=(), post=(), locals_types=None, hints=()):
         # locals first assigned inside the loop body but used after it: name -> type
         self.locals_types = {k: S.parse_type(v) for k, v in (locals_types or {}).items()}
         self.qual = qual
@@ -66,6 +66,9 @@ class LoopSpec:
         self.ghost_init = list(ghost_init)    # [(ghost local, expr)] before the loop
         self.ghost_pre = list(ghost_pre)      # [(ghost local, expr)] at the start of each iteration
         self.post = list(post)                # clauses that must hold when the loop exits normally
+        # proof hints (ghost asserts) at the end of the body, before the invariant is re-established: each is an
+        # obligation of its own ("inv-hint.*"); only a hint that was proved is then used as a hypothesis
+        self.hints = list(hints)
 
 
 class Lemma:
